@@ -94,7 +94,8 @@ def CHECK(work, res, tier):
         # the same scripted cases and stress scenarios with the race detector on: the owner-variable
         # probe inside the critical sections is a plain variable, so broken exclusion is also a race report
         corrs.append(dict(harness="syncx", area="syncx", name="syncx-race", race=True, env=ENV))
-    return generic("C14", corrs, extra=known_findings)(work, res, tier)
+    # schedule fuzzing in the search phase (first-use races, check-then-act windows)
+    return generic("C14", corrs, extra=known_findings, yield_search=corrs[:1])(work, res, tier)
 
 
 MANIFEST = dict(
